@@ -157,3 +157,16 @@ chk("C02", "model_checking",
     "harness has no oracle (binding shown by corrupted observations being rejected). Commands outside the server's feature set (SORT, THREAD, METADATA, QUOTA, CONDSTORE, SPECIAL-USE options) are excluded by the property's quantifier.",
     "TLA+ value-space + normal-form spec on a configuration machine; TLC enumeration through real client and server; TLC judges recorded observations",
     "DESIGN.md 3 (C02)", "tlc+harness/cmd/cmdspace")
+
+chk("C01", "model_checking",
+    "Wire.tla is a reference decoder for the IMAP value grammar (atom, quoted with escapes, {n}/{n+} literals, numbers, flags, mailbox = astring + modified UTF-7 + INBOX, "
+    "number sets via NumSet.tla, lists with depth) plus, per encoder mode (side x QuotedUTF8 x LITERAL- x LITERAL+), LegalRep/Reps/Canon/MustRefuse; TLC checks on the bounded "
+    "space that every conforming representation reference-decodes to the canonical value consuming exactly its bytes. Every value of the space (strings to length 2/3 over 19 "
+    "class representatives, 4095/4096/4097 length classes, names, flags, numbers, sets, trees to depth 3, nestings 999/1000/1001) is run through go-imap's real Encoder in all 16 "
+    "modes and the peer's real decoding functions; WireTrace judges bytes, refusals, decoded value and unread bytes, and every representation TLC lists (including ones the "
+    "encoder never chooses) is fed to the real Decoder. Random values beyond the bounds are recorded and re-evaluated by TLC.",
+    "Trusts TLC, the overlay shim (pure re-export) and the harness's value<->Go-type mapping (symbolic points for 2^32-3..2^32-1, long strings as length classes). "
+    "Canonicalisations compared modulo (both sides canonicalised). Continuation requests are pre-satisfied (the handshake is C18). Byte coverage beyond class representatives only "
+    "through the random direction.",
+    "TLA+ reference decoder + per-mode legality predicates, TLC bounded-exhaustive self-check; exhaustive encoder/decoder replay in 16 modes; trace re-evaluation",
+    "DESIGN.md 3 (C01)", "tlc+harness/cmd/wire")
